@@ -155,7 +155,7 @@ var c03Faults = &vlib.Check{
 	Classify: func(c *vlib.Case) (bool, []string) {
 		cl, _ := c.Params["class"].(string)
 		pl, _ := c.Params["place"].(string)
-		return pl != "direct" || true, []string{"class:" + cl, "place:" + pl, fmt.Sprintf("cell:%s/%s", strings.SplitN(cl, ":", 2)[0], pl)}
+		return pl != "direct", []string{"class:" + cl, "place:" + pl, fmt.Sprintf("cell:%s/%s", strings.SplitN(cl, ":", 2)[0], pl)}
 	},
 	SampleOf: func(c *vlib.Case) any {
 		return map[string]any{"class": c.Params["class"], "place": c.Params["place"], "expect": string(c.Expect), "project": c.Project.Summary(500)}
